@@ -484,7 +484,7 @@ def swapped_layouts(draw, tier):
     Read by position the two indexes are ``equals()``; read by name row i of the parameter belongs to another object row."""
     n = draw(st.sampled_from([2, 2, 2, 3]))
     names = list(draw(st.permutations(draw(st.sampled_from(NAME_POOLS)))))[:n]
-    perm = draw(st.permutations(range(n)).filter(lambda q: list(q) != list(range(n))))
+    perm = draw(st.sampled_from([list(q) for q in itertools.permutations(range(n)) if list(q) != list(range(n))]))
     kind = draw(st.sampled_from(["int", "int", "str", "float", "interval"]))
     count = draw(st.integers(2, 3 if n == 2 else 2))
     keys = POOLS[kind][:count] if draw(st.booleans()) else list(draw(st.permutations(POOLS[kind])))[:count]
@@ -1066,7 +1066,23 @@ def woehler_downstream(case, ctx):
 @st.composite
 def _meanstress_cases(draw, tier):
     """Per-element FKM-Goodman diagrams (DataFrame M, M2) x load collective (DataFrame range, mean)."""
-    layout = draw(st.sampled_from(["same", "element_scenario", "scenario", "element_cycle_shuffled"]))
+    layout = draw(st.sampled_from(["same", "element_scenario", "scenario", "element_cycle_shuffled",
+                                   "two_levels_swapped", "two_levels_swapped"]))
+    cyc = [[2.0, 0.0], [2.0, 1.0], [1.0, -0.5], [3.0, 4.0], [2.0, -3.0], [4.0, 0.5], [1.0, 1.0]]
+    Mgrid = [0.1, 0.3, 0.5, 0.2, 0.4]
+    if layout == "two_levels_swapped":
+        # diagrams on (element_id, node_id), collective on (node_id, element_id), key tuples identical position by position
+        k = draw(st.integers(2, 3))
+        keys = list(draw(st.permutations([1, 2, 3, 7])))[:k]
+        rows = [list(t) for t in itertools.product(keys, repeat=2)]
+        if draw(st.booleans()):
+            rows = list(draw(st.permutations(rows)))
+        off = draw(st.integers(0, 4))
+        haigh = {"names": ["element_id", "node_id"], "rows": [list(r) for r in rows],
+                 "values": [[Mgrid[(i + off) % 5], Mgrid[(i + off) % 5] / 4.0] for i in range(len(rows))]}
+        vals = [cyc[draw(st.integers(0, len(cyc) - 1))] for _ in rows]
+        return {"haigh": haigh, "cycles": {"names": ["node_id", "element_id"], "rows": [list(r) for r in rows], "values": vals},
+                "R_goal": draw(st.sampled_from([-1.0, 0.0, 0.5, -3.0])), "layout": layout}
     ne = draw(st.integers(1, 3))
     elements = list(draw(st.permutations([1, 2, 3, 7])))[:ne]
     Ms = [[0.1, 0.3, 0.5, 0.2][(i + draw(st.integers(0, 3))) % 4] for i in range(ne)]
@@ -1080,32 +1096,33 @@ def _meanstress_cases(draw, tier):
         names, rows = ["element_id", "scenario"], [[e, s] for e in elements for s in range(ns)]
         if layout == "element_cycle_shuffled":
             names, rows = ["scenario", "element_id"], [[r[1], r[0]] for r in draw(st.permutations(rows))]
-    cyc = [[2.0, 0.0], [2.0, 1.0], [1.0, -0.5], [3.0, 4.0], [2.0, -3.0], [4.0, 0.5], [1.0, 1.0]]
     vals = [cyc[draw(st.integers(0, len(cyc) - 1))] for _ in rows]
     return {"haigh": haigh, "cycles": {"names": names, "rows": rows, "values": vals},
             "R_goal": draw(st.sampled_from([-1.0, 0.0, 0.5, -3.0])), "layout": layout}
 
 
+def _named_index(names, rows):
+    if len(names) == 1:
+        return pd.Index([r[0] for r in rows], name=names[0])
+    return pd.MultiIndex.from_tuples([tuple(r) for r in rows], names=names)
+
+
 @subcheck(PROP, "meanstress_downstream", strategy=_meanstress_cases, quick=400, thorough=12000,
           doc="HaighDiagram.fkm_goodman(DataFrame per element).transform(collective, R_goal) (broadcast with droplevel=['R']) == the "
-              "transformation of every single cycle with the single diagram of its element (RTOL 1e-12)")
+              "transformation of every single cycle with the single diagram of its element (RTOL 1e-12); includes diagrams on "
+              "(element_id, node_id) x collective on (node_id, element_id) with positionally identical key tuples")
 def meanstress_downstream(case, ctx):
     from pylife.strength.meanstress import HaighDiagram
     h, c = case["haigh"], case["cycles"]
     ctx.label("layout:" + case["layout"])
-    hidx = pd.Index([r[0] for r in h["rows"]], name="element_id")
-    haigh = pd.DataFrame(h["values"], columns=["M", "M2"], index=hidx)
-    if len(c["names"]) == 1:
-        cidx = pd.Index([r[0] for r in c["rows"]], name=c["names"][0])
-    else:
-        cidx = pd.MultiIndex.from_tuples([tuple(r) for r in c["rows"]], names=c["names"])
-    cycles = pd.DataFrame(c["values"], columns=["range", "mean"], index=cidx, dtype=float)
+    haigh = pd.DataFrame(h["values"], columns=["M", "M2"], index=_named_index(h["names"], h["rows"]))
+    cycles = pd.DataFrame(c["values"], columns=["range", "mean"], index=_named_index(c["names"], c["rows"]), dtype=float)
     sc = snapshot(cycles)
     if len(h["rows"]) >= 2 and len(c["rows"]) >= 2:
         ctx.nontrivial()
     # recoded-index coincidence of F05: diagram levels (element_id, R) x collective levels (element_id, scenario) etc.
-    hrows = [[e[0], k] for e in h["rows"] for k in range(3)]
-    if _f05_models({"names": ["element_id", "R"], "rows": hrows}, {"names": c["names"], "rows": c["rows"]}) and ctx.known("F05"):
+    hrows = [list(e) + [k] for e in h["rows"] for k in range(3)]
+    if _f05_models({"names": h["names"] + ["R"], "rows": hrows}, {"names": c["names"], "rows": c["rows"]}) and ctx.known("F05"):
         return
     Rg = case["R_goal"]
     res = HaighDiagram.fkm_goodman(haigh.copy()).transform(cycles, Rg)
@@ -1113,27 +1130,25 @@ def meanstress_downstream(case, ctx):
     names = list(res.index.names)
     rows = _rows_of(res.index)
     table_c = {tuple(r): v for r, v in zip(c["rows"], c["values"])}
-    table_h = {r[0]: v for r, v in zip(h["rows"], h["values"])}
-    if "element_id" not in names or any(n not in names for n in c["names"]):
-        raise Violation("result levels %r lack levels of the operands (element_id, %r)" % (names, c["names"]), bucket="meanstress:levels")
-    if "element_id" in c["names"]:
-        want_rows = set(tuple(r[c["names"].index(n)] if n in c["names"] else None for n in names) for r in c["rows"])
-    else:
-        want_rows = set(tuple(e[0] if n == "element_id" else r[c["names"].index(n)] for n in names) for e in h["rows"] for r in c["rows"])
-    if set(rows) != want_rows or len(rows) != len(want_rows):
-        raise Violation("result rows %r, expected %r" % (rows[:10], sorted(want_rows)[:10]), bucket="meanstress:row-set")
+    table_h = {tuple(r): v for r, v in zip(h["rows"], h["values"])}
+    if any(n not in names for n in h["names"] + c["names"]):
+        raise Violation("result levels %r lack levels of the operands (%r, %r)" % (names, h["names"], c["names"]), bucket="meanstress:levels")
+    j = ref.join(list(h["names"]), [tuple(r) for r in h["rows"]], list(c["names"]), [tuple(r) for r in c["rows"]])
+    want_rows = set(ref.project(r, j["ids"], names) for r in j["rows"]) if set(names) == set(j["ids"]) else None
+    if want_rows is None or set(rows) != want_rows or len(rows) != len(want_rows):
+        raise Violation("result levels %r rows %r, expected the join %r of %r" % (names, rows[:10], j["rows"][:10], j["ids"]), bucket="meanstress:row-set")
     got = _values_of(res[["range", "mean"]])
     cache = {}
     for r, g in zip(rows, got):
-        e = r[names.index("element_id")]
+        hk = tuple(r[names.index(n)] for n in h["names"])
         ck = tuple(r[names.index(n)] for n in c["names"])
-        key = (e, tuple(table_c[ck]))
+        key = (hk, tuple(table_c[ck]))
         if key not in cache:
-            one = HaighDiagram.fkm_goodman(pd.Series({"M": table_h[e][0], "M2": table_h[e][1]}))
+            one = HaighDiagram.fkm_goodman(pd.Series({"M": table_h[hk][0], "M2": table_h[hk][1]}))
             single = pd.DataFrame([table_c[ck]], columns=["range", "mean"], dtype=float)
             out = one.transform(single, Rg)
             cache[key] = [float(out["range"].iloc[0]), float(out["mean"].iloc[0])]
         w = cache[key]
         if not all(_close(None if a is None else float(a), b) for a, b in zip(g, w)):
-            raise Violation("row %r: batch (range, mean) = %r, single-element transformation of cycle %r with M=%r gives %r"
-                            % (r, g, table_c[ck], table_h[e], w), bucket="meanstress:value")
+            raise Violation("row %r: batch (range, mean) = %r, single-diagram transformation of cycle %r with (M, M2) = %r of %r gives %r"
+                            % (r, g, table_c[ck], table_h[hk], hk, w), bucket="meanstress:value")
